@@ -27,7 +27,7 @@ NoExpect == [next |-> 0, of |-> 0, ost |-> 0]
 
 NoPool == -2      \* no pending target
 AnyPool == -1     \* target chosen by the runtime (ABT_thread_migrate) / not yet observed
-Mg0 == [pool |-> NoPool, old |-> NoPool, pend |-> NoPool, armed |-> FALSE, must |-> FALSE, ncb |-> 0, able |-> TRUE]
+Mg0 == [pool |-> NoPool, old |-> NoPool, pend |-> NoPool, armed |-> FALSE, must |-> FALSE, ncb |-> 0, able |-> TRUE, cands |-> {}, cred |-> 0, exp |-> 9]
 
 HInit == /\ st = [u \in Units |-> "none"] /\ arg = [u \in Units |-> 0] /\ tok = [u \in Units |-> 0]
          /\ cst = [u \in Units |-> 0] /\ starts = [u \in Units |-> 0] /\ inYield = [u \in Units |-> FALSE]
@@ -113,27 +113,50 @@ Revive(by, u, a, pool) ==
 \* ---------------------------------------------------------------- migration
 \* A request names a target pool (or AnyPool).  It is accepted iff the unit is
 \* migratable and the target differs from the pool it is associated with.
-\* (Requests for one unit are issued one at a time, or by the unit itself.)
+\* Requests may overlap: a later request overwrites the target of an earlier one that has not been
+\* performed yet (pend = the target of the latest accepted request, cands = the targets of all
+\* requests since the last callback: the callback may still perform an older one, after which the
+\* latest one stays pending).
 \* (a requester may find out only after logging its call that the unit has just finished: such a
 \*  late request has no effect)
-MigReq(by, u, tgt) ==
+\* `has`: the pools of the scheduler the request names (to_sched / to_xstream: the request is
+\* rejected when the unit is associated with any of them, and otherwise aims at the first one);
+\* for a request that names a pool, that pool; empty for ABT_thread_migrate.
+\* exp: the outcome the call must report -- 0 accepted, 1 rejected: already there, 2 rejected:
+\* not migratable, 9 anything (the unit had finished when the call was made)
+MigReq(by, u, tgt, has) ==
     /\ ByOK(by) /\ st[u] \in {"created", "running", "blocked", "resumable", "done"}
-    /\ mg' = [mg EXCEPT ![u].pend = IF st[u] # "done" /\ mg[u].able /\ tgt # mg[u].pool THEN tgt ELSE @]
+    /\ LET same == mg[u].pool = tgt \/ mg[u].pool \in has
+           ok == st[u] # "done" /\ mg[u].able /\ ~same IN
+       mg' = [mg EXCEPT ![u].pend = IF ok THEN tgt ELSE @, ![u].cands = IF ok THEN @ \cup {tgt} ELSE @,
+                        ![u].cred = IF ok THEN @ + 1 ELSE @,
+                        ![u].exp = IF st[u] = "done" THEN 9 ELSE IF ~mg[u].able THEN 2 ELSE IF same THEN 1 ELSE 0]
     /\ UNCHANGED <<st, arg, tok, cst, starts, inYield, inpool, expect, rin>>
 \* ret: 0 accepted, 1 rejected: same pool, 2 rejected: not migratable, 3 "no target stream"
 MigRet(by, u, ret) ==
-    /\ CASE ret = 0 -> mg[u].able                  \* (the target check was made at MigReq)
-         [] ret = 1 -> mg[u].able /\ mg[u].pend = NoPool
-         [] ret = 2 -> ~mg[u].able
-         [] OTHER -> FALSE                         \* ABT_thread_migrate must find another running stream
+    /\ IF mg[u].exp = 9
+       THEN CASE ret = 0 -> mg[u].able
+              [] ret = 1 -> mg[u].able /\ mg[u].pend = NoPool
+              [] ret = 2 -> ~mg[u].able
+              [] OTHER -> FALSE                    \* ABT_thread_migrate must find another running stream
+       ELSE ret = mg[u].exp \/ (ret = 2 /\ st[u] = "done")   \* (it finished while the call was being made)
     \* armed unless the migration has already been performed meanwhile
-    /\ mg' = [mg EXCEPT ![u].armed = (ret = 0 /\ mg[u].pend # NoPool)]
+    /\ mg' = [mg EXCEPT ![u].armed = IF ret = 0 THEN mg[u].pend # NoPool ELSE @, ![u].exp = 9]
     /\ UNCHANGED <<st, arg, tok, cst, starts, inYield, inpool, expect, rin>>
-\* the migration callback: the migration is performed here, exactly once per request
+\* the migration callback: the migration is performed here
+\* Each accepted request raises the request flag once, and the handler runs only when it finds the
+\* flag raised (lowering it): there are never more callbacks than accepted requests (cred).  A
+\* callback that finds no target pending (the flag was raised again after the handler had
+\* lowered it and already read the newest target) leaves the unit where it is.
 MigCb(u) ==
-    /\ mg[u].pend # NoPool
-    /\ mg' = [mg EXCEPT ![u] = [@ EXCEPT !.old = mg[u].pool, !.pool = mg[u].pend, !.pend = NoPool,
-                                         !.armed = FALSE, !.must = FALSE, !.ncb = @ + 1]]
+    /\ mg[u].cred > 0
+    /\ IF mg[u].pend # NoPool
+       THEN \E p \in mg[u].cands :
+              mg' = [mg EXCEPT ![u] = [@ EXCEPT !.old = mg[u].pool, !.pool = p, !.ncb = @ + 1, !.must = FALSE, !.cred = @ - 1,
+                                              !.pend = IF p = mg[u].pend THEN NoPool ELSE @,
+                                              !.armed = IF p = mg[u].pend THEN FALSE ELSE @,
+                                              !.cands = IF p = mg[u].pend THEN {} ELSE @ \ {p}]]
+       ELSE mg' = [mg EXCEPT ![u].ncb = @ + 1, ![u].cred = @ - 1]
     /\ UNCHANGED <<st, arg, tok, cst, starts, inYield, inpool, expect, rin>>
 MigCount(u, n) == n = mg[u].ncb /\ UNCHANGED hvars
 
